@@ -16,7 +16,9 @@ RULE = ("for every read count 1..125 x payload classes {00, FF, FF/FE, 7F/80, ra
         "read/settings/runtime/device-info answers of payload length 0..255 x payload classes: the frame built by the "
         "independent reference encoder must make the real validator return True; an end-to-end part serves such frames "
         "through the real protocol objects and demands success with one transmission and exactly the served payload; two "
-        "Modbus/TCP inverter objects with overlapping requests must each accept the answer carrying their own transaction id; "
+        "Modbus/TCP inverter objects with overlapping requests must each accept the answer carrying their own transaction id; sequences on one "
+        "object: concurrent reads of different lengths, a request after a lone fragment, consecutive requests answered 0..0.9 T after their "
+        "transmission with byte-identical answers; "
         "distinct = distinct (framing, kind, count or length, payload class, trailing class) tuples")
 ASSUMPTIONS = [
     "a conforming frame is what the reference encoder in refcodec builds from the Modbus specification / the AA55 "
@@ -24,7 +26,7 @@ ASSUMPTIONS = [
     "with trailing bytes after an RTU frame the served payload must be the prefix of response_data() (the library's "
     "trim keeps the trailing bytes; sensors address the payload by offset)",
 ]
-MUST = ["aa55_sum_ge_8000", "aa55_sum_ge_10000", "rtu_trailing", "end_to_end_success", "negative_write_echo", "overlapping_tcp_inverters", "same_object_sequences",
+MUST = ["aa55_sum_ge_8000", "aa55_sum_ge_10000", "rtu_trailing", "end_to_end_success", "negative_write_echo", "overlapping_tcp_inverters", "same_object_sequences", "consecutive_slow_or_identical_answers",
         "accepted_rtu", "accepted_tcp", "accepted_aa55"]
 EXHAUSTIVE = {"quick": False, "thorough": False}
 CLASSES = ["random", "ff", "00", "7f80", "fe", "aa55"]
@@ -232,7 +234,24 @@ def same_object(spec, part):
         framing = rnd.choice(("rtu", "tcp"))
         transport = "tcp" if framing == "tcp" else "udp"
         ka = rnd.random() < 0.6
-        if i % 2 == 0:
+        if i % 3 == 2:
+            # consecutive requests on one object, each answered in time (0 .. 0.9 T after ITS transmission); the answers may be
+            # byte-identical (same count, constant payload: an RTU answer does not name the register)
+            n, cA, cB = rnd.choice((2, 3, 4, 5)), rnd.choice((1, 2, 4)), 0
+            const = rnd.choice((None, 0x00, 0xFF, 0x5A))
+            delays = [rnd.choice((0.0, 0.3, 0.6, 0.9)) for _ in range(n)]
+            steps = []
+            for j in range(n):
+                steps.append(rnd.choice((["read", 2000 + j, cA], ["read", 2000 + j, cA], ["write", 2000 + j, 0 if const is not None else j])))
+                if rnd.random() < 0.3:
+                    steps.append(["sleep", rnd.choice((0.05, 0.4, 1.0))])
+            sc = {"transport": transport, "framing": framing, "keep_alive": ka, "T": 1, "R": 1, "const_payload": const,
+                  "by_reg": {2000 + j: [["delay", delays[j]]] for j in range(n)}, "after": "now",
+                  "tasks": [{"start": 0.0, "steps": steps}]}
+            want_tx = {2000 + j: 1 for j in range(n)}
+            label = f"{n} consecutive requests answered {delays} after their transmission (constant payload {const})"
+            part.count("consecutive_slow_or_identical_answers")
+        elif i % 2 == 0:
             cA, cB = rnd.sample((1, 2, 5, 10, 40, 125), 2)
             sc = {"transport": transport, "framing": framing, "keep_alive": ka, "T": 1, "R": 1,
                   "by_reg": {2000: [["delay", 0.3]], 3000: ["now"]}, "after": "now",
@@ -253,7 +272,7 @@ def same_object(spec, part):
         run = engine.run_scenario(sc, quiesce=False)
         part.evaluations += 1
         part.count("same_object_sequences")
-        part.see(f"sameobj|{framing}|{ka}|{i % 2}|{cA}|{cB}")
+        part.see(f"sameobj|{framing}|{ka}|{i % 3 == 2 or i % 2}|{cA}|{cB}|{sc.get('const_payload')}")
         parse = rc.parse_rtu_request if framing == "rtu" else rc.parse_tcp_request
         ntx = {}
         for e in run.events:
@@ -261,6 +280,8 @@ def same_object(spec, part):
                 r = parse(e[4])["reg"]
                 ntx[r] = ntx.get(r, 0) + 1
         for rec in run.calls:
+            if rec["step"][0] == "sleep":
+                continue
             reg = rec["step"][1]
             if run.stop or rec["outcome"] != "ok" or ntx.get(reg) != want_tx[reg]:
                 part.violate(f"C02/{framing}/conforming-answer-not-delivered",
@@ -279,7 +300,8 @@ def plan(tier, seed):
     for i in range(4 if tier == "quick" else 16):
         specs.append({"mode": "e2e", "seed": f"{seed}:C02:E:{i}", "n": 600 if tier == "quick" else 4000})
     specs.append({"mode": "overlap", "seed": f"{seed}:C02:O", "n": 60 if tier == "quick" else 600})
-    specs.append({"mode": "sameobj", "seed": f"{seed}:C02:S", "n": 200 if tier == "quick" else 2000})
+    for i in range(1 if tier == "quick" else 4):
+        specs.append({"mode": "sameobj", "seed": f"{seed}:C02:S{i or ''}", "n": 300 if tier == "quick" else 1500})
     return specs
 
 
